@@ -37,14 +37,17 @@ Proof.
   now rewrite orb_true_r.
 Qed.
 
-Lemma last_mode_irrel : forall pps d d', pps <> [] -> last_mode pps d = last_mode pps d'.
-Proof. intros [|[m] r] d d' H; [congruence | reflexivity]. Qed.
+Lemma last_mode_irrel : forall pps d d', no_external pps = true -> pps <> [] -> last_mode pps d = last_mode pps d'.
+Proof. intros [|[m|f] r] d d' N H; [congruence | reflexivity | discriminate]. Qed.
 
 (* ------------------------------------------------------------------------------------------ *)
 (* the translated functions, characterised (the only lemmas that look inside them)              *)
 (* ------------------------------------------------------------------------------------------ *)
 Lemma resolve_id : forall e p, links e p = None -> resolve e p = p.
 Proof. intros e p H. unfold resolve. now rewrite H. Qed.
+
+Lemma ExternalProgram_call_eq : forall e s f p, ExternalProgram_call e s f p = (fs_edit e s (resolve e p) f, p).
+Proof. reflexivity. Qed.
 
 Lemma SetFileMode_call_eq : forall e s m p, SetFileMode_call e s m p = (fs_chmod e s (resolve e p) m, p).
 Proof. intros; unfold SetFileMode_call; rewrite ?bind_ret; reflexivity. Qed.
@@ -73,6 +76,10 @@ Proof. intros e s p f L H D. unfold_gate L H D. reflexivity. Qed.
 Lemma handle_overwrite_dir : forall e s p f a, links e p = None -> s p = Some f -> f_isdir f = true ->
   exists er, handle_overwrite e s p a = (s, Err er).
 Proof. intros e s p f a L H D. destruct a; unfold_gate L H D; eexists; reflexivity. Qed.
+
+Lemma handle_overwrite_conflict : forall e s p f, links e p = None -> s p = Some f ->
+  handle_overwrite e s p false = (s, Err EExists).
+Proof. intros e s p f L H. destruct (f_isdir f) eqn:D; unfold_gate L H D; reflexivity. Qed.
 
 (* does the gate of /repo refuse symbolic links (live or dangling) at the path of a file to generate?  Not before the
    proposed fix design_notes/C12_symlink_fix.patch: exists()/chmod()/open() follow links.  Statements that need it take it as
@@ -204,13 +211,23 @@ Proof.
     first [apply rel_refl | now apply fs_chmod_rel].
 Qed.
 
+Lemma fs_edit_rel : forall (T A : path -> Prop) p f, T p -> rel_fn e T A (fun s => fs_edit e s p f).
+Proof.
+  intros T A p f Tp s; unfold fs_edit. destruct (s p) as [m|] eqn:E; cbn [fst]; [|apply rel_refl].
+  destruct (f_isdir m); cbn [fst]; [apply rel_refl|]. destruct (writable e m); cbn [fst]; [|apply rel_refl].
+  apply rel_upd_T; auto; [rewrite E; cbn; auto | congruence].
+Qed.
+
 Lemma run_filepps_rel : forall (T A : path -> Prop) p pps, T (resolve e p) -> rel_fn e T A (fun s => run_filepps e s p pps).
 Proof.
-  intros T A p pps Tp. induction pps as [|[m] r IH]; intros s; cbn [run_filepps].
+  intros T A p pps Tp. induction pps as [|[m|f] r IH]; intros s; cbn [run_filepps].
   - apply rel_refl.
   - rewrite SetFileMode_call_eq; cbn [fst snd].
     apply (rel_bind e T A (fun s => fs_chmod e s (resolve e p) m) (fun s1 => run_filepps e s1 p r)); auto.
     now apply fs_chmod_rel.
+  - rewrite ExternalProgram_call_eq; cbn [fst snd].
+    apply (rel_bind e T A (fun s => fs_edit e s (resolve e p) f) (fun s1 => run_filepps e s1 p r)); auto.
+    now apply fs_edit_rel.
 Qed.
 
 Definition is_copy (a : act) : bool := match a with AShutilCopy => true | _ => false end.
@@ -422,15 +439,16 @@ Variable e : env.
 Hypothesis Hind : render_independent render.
 Hypothesis Hwf : env_wf e.
 
-Lemma run_filepps_full : forall p pps s f, links e p = None -> s p = Some f -> superuser e || f_owned f = true ->
+Lemma run_filepps_full : forall p pps s f, no_external pps = true -> links e p = None -> s p = Some f -> superuser e || f_owned f = true ->
   exists s', run_filepps e s p pps = (s', Ok) /\
              s' p = Some (mkF (f_cid f) (last_mode pps (f_mode f)) (f_owned f) (f_isdir f)) /\
              forall q, q <> p -> s' q = s q.
 Proof.
-  intros p pps. induction pps as [|[m] r IH]; intros s f L E Hp; cbn [run_filepps last_mode].
+  intros p pps. induction pps as [|[m|g] r IH]; intros s f Ne L E Hp; cbn [run_filepps last_mode]; [| |discriminate].
   - exists s. split; [reflexivity|]. split; [|reflexivity]. rewrite E. now destruct f.
   - rewrite SetFileMode_call_eq, (resolve_id e p L); cbn [fst snd]. unfold fs_chmod. rewrite E, Hp. rewrite bind_pair_ok.
     destruct (IH (upd s p (set_mode f (N.land m 4095))) (set_mode f (N.land m 4095))) as [s' [H1 [H2 H3]]].
+    + exact Ne.
     + exact L.
     + apply upd_same.
     + exact Hp.
@@ -448,6 +466,7 @@ Variable c : cfg.
 Variable p : path.
 Hypothesis Hl : links e p = None.          (* p is not a symbolic link *)
 Hypothesis Hd : c_dryrun c = false.
+Hypothesis Hne : no_external (c_filepps c) = true.   (* success and canonical content are proved without --pp-run-program only *)
 
 Definition R := render empty_fs 0 (c_class c) p.
 Notation M := (mkdirs e None (ancestors e p)).
@@ -475,7 +494,7 @@ Proof.
     (eexists; eexists; split; [reflexivity|]; rewrite ?upd_same; split; [reflexivity|];
      cbn [f_cid f_owned f_isdir set_mode]; repeat split; auto; intros q Hq; rewrite ?upd_other by exact Hq; reflexivity). }
   destruct X as [s3 [f3 [H3 [E3 [C3 [O3 [D3 F3]]]]]]]. rewrite H3. ex.
-  destruct (run_filepps_full p (c_filepps c) s3 f3 Hl E3) as [s4 [H4 [E4 F4]]]; [rewrite O3; apply orb_true_r|].
+  destruct (run_filepps_full p (c_filepps c) s3 f3 Hne Hl E3) as [s4 [H4 [E4 F4]]]; [rewrite O3; apply orb_true_r|].
   rewrite H4. ex. exists s4. split; [reflexivity|]. split.
   - eexists. split; [exact E4|]. cbn [f_cid f_mode f_owned f_isdir]. repeat split; auto.
     intros Hn. now apply last_mode_irrel.
@@ -497,7 +516,7 @@ Proof.
     (eexists; eexists; split; [reflexivity|]; rewrite ?upd_same; split; [reflexivity|];
      cbn [f_cid f_owned f_isdir set_mode set_cid]; repeat split; auto; intros q Hq; rewrite ?upd_other by exact Hq; reflexivity). }
   destruct X as [s3 [f3 [H3 [E3 [C3 [O3 [D3 F3]]]]]]]. rewrite H3. ex.
-  destruct (run_filepps_full p (c_filepps c) s3 f3 Hl E3) as [s4 [H4 [E4 F4]]]; [now rewrite O3|].
+  destruct (run_filepps_full p (c_filepps c) s3 f3 Hne Hl E3) as [s4 [H4 [E4 F4]]]; [now rewrite O3|].
   rewrite H4. ex. exists s4. split; [reflexivity|]. split.
   - eexists. split; [exact E4|]. cbn [f_cid f_mode f_owned f_isdir]. repeat split; auto.
     intros Hn. now apply last_mode_irrel.
@@ -581,39 +600,6 @@ Proof.
     rewrite H1 in H. injection H as <-. eauto.
 Qed.
 
-(* the fine footprint of one writer: only p itself and missing directories above it -- the gate has refused directories, so
-   shutil.copy never takes its into-the-directory branch *)
-Lemma W_rel_fine : forall k s, rel e (fun q => q = p) (fun q => In q (ancestors e p)) s (fst (W k s)).
-Proof.
-  intros k s.
-  assert (MR : forall s0, rel e (fun q => q = p) (fun q => In q (ancestors e p)) s0 (fst (M s0))).
-  { intros s0. apply (mkdirs_rel e (fun q => q = p) (fun q => In q (ancestors e p))). auto. }
-  assert (Fin : forall s2 s' own, written s' own -> meta_ok (s2 p) (Some (mkF 0 0 own false)) ->
-                (forall q, q <> p -> s' q = s2 q) -> rel e (fun q => q = p) (fun q => In q (ancestors e p)) s2 s').
-  { intros s2 s' own [f' [E' [_ [O' [D' _]]]]] Mk F q. destruct (N.eq_dec q p) as [->|Hq].
-    - rewrite E'. split; [intros X; now elim X | split].
-      + destruct (s2 p) as [f2|]; cbn in Mk |- *; [destruct Mk; split; congruence | congruence].
-      + intros _ f0 E0 D0. injection E0 as <-. congruence.
-    - rewrite F by exact Hq. exact (rel_refl e (fun q => q = p) (fun q => In q (ancestors e p)) s2 q). }
-  destruct (s p) as [f|] eqn:E.
-  - destruct (f_isdir f) eqn:D.
-    + destruct (W_dir_refused k s f E D) as [er H]. rewrite H. apply rel_refl.
-    + destruct (c_allow c) eqn:Ha.
-      * destruct (superuser e || f_owned f) eqn:Hp.
-        -- assert (G : rel e (fun q => q = p) (fun q => In q (ancestors e p)) s (gated s f)).
-           { unfold gated. apply rel_upd_T; [reflexivity | rewrite E; cbn; auto | congruence]. }
-           destruct (W_overwrite k s f E D Ha Hp) as [[er [H1 _]]|[_ [s2 [H1 [H2 H3]]]]]; rewrite H1; cbn [fst].
-           ++ eapply rel_trans; [exact G | apply MR].
-           ++ eapply rel_trans; [exact G|]. eapply rel_trans; [apply MR|].
-              apply (Fin _ s2 (f_owned f) H2); [|exact H3].
-              rewrite M_keeps_p. unfold gated. rewrite upd_same. cbn. auto.
-        -- rewrite (W_noperm k s f E D Ha Hp). apply rel_refl.
-      * rewrite (W_refuse k s f E D Ha). apply rel_refl.
-  - destruct (W_absent k s E) as [[er [H1 _]]|[_ [_ [s2 [H1 [H2 H3]]]]]]; rewrite H1; cbn [fst].
-    + apply MR.
-    + eapply rel_trans; [apply MR|]. apply (Fin _ s2 true H2); [|exact H3]. rewrite M_keeps_p, E. reflexivity.
-Qed.
-
 (* ... and of every prefix of its action list (an interrupted write) *)
 Lemma gate_ok_nodir : forall s s1 a, handle_overwrite e s p a = (s1, Ok) -> fs_is_dir s1 p = false.
 Proof.
@@ -664,6 +650,28 @@ Proof.
     + apply Body. cbn [run_act] in *. unfold fs_is_dir. rewrite M_keeps_p.
       destruct (handle_overwrite e s p (c_allow c)) as [s1 r1] eqn:EH. cbn [fst snd] in *. subst r1. exact (gate_ok_nodir s s1 _ EH).
     + intros _. cbn [run_acts]. apply rel_bind_ok; [cbn [run_act]; now apply run_filepps_rel | intros _; cbn [run_acts fst]; apply rel_refl].
+Qed.
+
+(* the fine footprint of one complete writer: only p itself and missing directories above it *)
+Lemma W_rel_fine : forall k s, rel e (fun q => q = p) (fun q => In q (ancestors e p)) s (fst (W k s)).
+Proof.
+  intros k s. pose proof (W_prefix_rel_fine k 4 s) as X. unfold write_item. cbn [fst snd].
+  rewrite (flat_acts_shape c k Hd) in *. exact X.
+Qed.
+
+Lemma W_conflict : forall k s f, s p = Some f -> c_allow c = false -> W k s = (s, Err EExists).
+Proof. intros k s f E Ha. open_writer. rewrite Ha, (handle_overwrite_conflict e s p f Hl E). ex. reflexivity. Qed.
+
+Lemma W_absent_ready : forall k s, s p = None -> ready e s p = true ->
+  exists s', W k s = (s', Ok) /\ written s' true /\ forall q, q <> p -> s' q = fst (M s) q.
+Proof.
+  intros k s E Hr. unfold ready in Hr. apply andb_true_iff in Hr. destruct Hr as [R1 R2]. rewrite E in R2.
+  destruct (W_absent k s E) as [[er [H1 H2]]|[_ [_ X]]]; [|exact X].
+  exfalso. unfold write_item in H1. cbn [fst snd] in H1. rewrite (flat_acts_shape c _ Hd) in H1. cbn [run_acts run_act] in H1.
+  rewrite (handle_overwrite_absent e s p _ Hl E) in H1. rewrite bind_pair_ok in H1.
+  pose proof (M_keeps_p s) as Kp. rewrite E in Kp.
+  destruct (M s) as [s2 r2]; cbn [fst snd] in *. destruct r2; [|discriminate]. rewrite bind_pair_ok in H1.
+  destruct (tail_absent k s2 Kp R2) as [s3 [H3 _]]. rewrite H3 in H1. discriminate.
 Qed.
 
 (* with the chain ready, writing succeeds *)
@@ -744,7 +752,7 @@ Proof.
   - rewrite W_dry by exact Hd. apply rel_refl.
   - destruct (link_cases p Lk) as [Hl|[Hg [d L]]];
       [|destruct (W_link_refused c p d k s Hg L Hd) as [er X]; rewrite X; apply rel_refl].
-    eapply rel_weaken; [| |apply (W_rel_fine render e Hind Hwf c p Hl Hd k s)].
+    eapply rel_weaken; [| |apply (W_rel_fine render e Hwf c p Hl Hd k s)].
     + intros q ->. unfold tgt, targets. now apply (in_map fst _ (p, k)).
     + intros q Hq. now apply (item_anc e c (p, k)).
 Qed.
@@ -834,7 +842,7 @@ Lemma W_frame_ok : forall c p k s s', links e p = None -> c_dryrun c = false -> 
 Proof.
   intros c p k s s' Hl Hd H q Hq Hs.
   replace s' with (fst (write_item render e c s (p, k))) by now rewrite H.
-  destruct (W_rel_fine render e Hind Hwf c p Hl Hd k s q) as [F _]. destruct (F Hq) as [X|[_ [X _]]]; [exact X | congruence].
+  destruct (W_rel_fine render e Hwf c p Hl Hd k s q) as [F _]. destruct (F Hq) as [X|[_ [X _]]]; [exact X | congruence].
 Qed.
 
 (* an item whose write succeeded is not behind a link (the gate would have refused, or there is none) *)
@@ -856,19 +864,19 @@ Proof.
     rewrite <- E1. apply (IH s1 s'); [intros x Hx; apply Lk; now right | exact H2 | intros X; apply Hq; now right | congruence].
 Qed.
 
-Lemma list_canonical : forall c, c_dryrun c = false -> forall l s s' p, (forall x, In x (map fst l) -> link_ok x) ->
+Lemma list_canonical : forall c, c_dryrun c = false -> no_external (c_filepps c) = true -> forall l s s' p, (forall x, In x (map fst l) -> link_ok x) ->
   WL c s l = (s', Ok) -> In p (map fst l) ->
   exists f', s' p = Some f' /\ f_cid f' = Rn c p /\ f_isdir f' = false /\
              (c_filepps c <> [] -> f_mode f' = last_mode (c_filepps c) 0).
 Proof.
-  intros c Hd l. induction l as [|[p0 k] r IH]; intros s s' p Lk H Hin; cbn [run_list map fst] in *; [contradiction|].
+  intros c Hd Hne l. induction l as [|[p0 k] r IH]; intros s s' p Lk H Hin; cbn [run_list map fst] in *; [contradiction|].
   apply bind_ok in H. destruct H as [s1 [H1 H2]].
   assert (Hl : links e p0 = None) by (apply (ok_item_nolink c p0 k s s1); auto; apply Lk; now left).
   assert (Lk' : forall x, In x (map fst r) -> link_ok x) by (intros x Hx; apply Lk; now right).
   destruct (in_dec N.eq_dec p (map fst r)) as [Hr|Hr].
   - eapply IH; eauto.
   - destruct Hin as [<-|Hin]; [|contradiction].
-    destruct (W_ok render e Hind Hwf c p0 Hl Hd k s s1 H1) as [own [f' [E [C [_ [D M]]]]]].
+    destruct (W_ok render e Hind Hwf c p0 Hl Hd Hne k s s1 H1) as [own [f' [E [C [_ [D M]]]]]].
     exists f'. rewrite <- E. split; [|auto].
     apply (list_frame_ok c Hd r s1 s' Lk' H2); [exact Hr | congruence].
 Qed.
@@ -891,7 +899,7 @@ Proof.
   - destruct (W_refuse_any render e c p0 Hl Hd k s f E Ha) as [er H]. rewrite H. reflexivity.
   - assert (Hne : q <> p0) by congruence.
     assert (F : fst (write_item render e c s (p0, k)) q = s q).
-    { destruct (W_rel_fine render e Hind Hwf c p0 Hl Hd k s q) as [X _]. destruct (X Hne) as [Y|[_ [Y _]]]; [exact Y | congruence]. }
+    { destruct (W_rel_fine render e Hwf c p0 Hl Hd k s q) as [X _]. destruct (X Hne) as [Y|[_ [Y _]]]; [exact Y | congruence]. }
     destruct (write_item render e c s (p0, k)) as [s1 [|er]]; cbn [fst] in F.
     + rewrite bind_pair_ok. rewrite IH by (auto; congruence). exact F.
     + rewrite bind_pair_err. exact F.
@@ -931,15 +939,76 @@ Proof.
     destruct (write_item render e c s (p0, k)) as [s1 [|er]]; [rewrite bind_pair_ok; apply IH; eauto | rewrite bind_pair_err; discriminate].
 Qed.
 
+(* --no-overwrite with pairwise distinct targets: success iff nothing was there, the overwrite error iff something was *)
+Lemma list_noov_step : forall c, c_dryrun c = false -> no_external (c_filepps c) = true -> compatible c c -> links_clear c ->
+  forall p0 k r s, In (p0, k) (items c) -> (forall it, In it r -> In it (items c)) -> ~ In p0 (map fst r) ->
+  s p0 = None -> (forall p, In p (p0 :: map fst r) -> ready e s p = true) ->
+  exists s1, write_item render e c s (p0, k) = (s1, Ok) /\
+             (forall p, In p (map fst r) -> s1 p = s p) /\ (forall p, In p (map fst r) -> ready e s1 p = true).
+Proof.
+  intros c Hd Hne Hc Lc p0 k r s Hit Hsub Hnot E Hr.
+  assert (Hl : links e p0 = None) by (apply Lc; unfold targets; now apply (in_map fst _ (p0, k))).
+  destruct (W_absent_ready render e Hind Hwf c p0 Hl Hd Hne k s E (Hr p0 (or_introl eq_refl))) as [s1 [H1 [_ F]]].
+  exists s1. split; [exact H1|].
+  assert (Rl : rel e (tgt c) (anc e c) s s1).
+  { replace s1 with (fst (write_item render e c s (p0, k))) by now rewrite H1. apply write_item_rel_fine; [exact Hit | now left]. }
+  assert (Tg : forall p, In p (map fst r) -> tgt c p).
+  { intros p Hp. apply in_map_iff in Hp. destruct Hp as [it [<- Hi]]. unfold tgt, targets. apply in_map. now apply Hsub. }
+  split.
+  - intros p Hp. rewrite F by (intros ->; contradiction). apply mkdirs_other.
+    intros Ha. apply (proj1 Hc p); [|now apply Tg]. now apply (item_anc e c (p0, k)).
+  - intros p Hp. apply (ready_preserved e (tgt c) (anc e c) s s1 p Rl).
+    + intros q Hq. apply (proj1 Hc). apply in_map_iff in Hp. destruct Hp as [it [<- Hi]]. apply (item_anc e c it); auto.
+    + intros Ha. exact (proj1 Hc p Ha (Tg p Hp)).
+    + apply Hr. now right.
+Qed.
+
+Lemma list_noov_clean : forall c, c_dryrun c = false -> no_external (c_filepps c) = true -> compatible c c -> links_clear c ->
+  forall l s, (forall it, In it l -> In it (items c)) -> NoDup (map fst l) ->
+  (forall p, In p (map fst l) -> ready e s p = true) -> (forall p, In p (map fst l) -> s p = None) -> snd (WL c s l) = Ok.
+Proof.
+  intros c Hd Hne Hc Lc l. induction l as [|[p0 k] r IH]; intros s Hsub Hnd Hr Hn; cbn [run_list map fst] in *; [reflexivity|].
+  inversion Hnd as [|? ? Hnot Hnd']; subst.
+  assert (X : exists s1, write_item render e c s (p0, k) = (s1, Ok) /\
+             (forall p, In p (map fst r) -> s1 p = s p) /\ (forall p, In p (map fst r) -> ready e s1 p = true))
+    by (apply (list_noov_step c Hd Hne Hc Lc p0 k r s);
+        [apply Hsub; now left | intros it Hi; apply Hsub; now right | exact Hnot | apply Hn; now left | exact Hr]).
+  destruct X as [s1 [H1 [Keep Rdy]]].
+  rewrite H1, bind_pair_ok. apply IH; auto.
+  - intros it Hi. apply Hsub. now right.
+  - intros p Hp. rewrite Keep by exact Hp. apply Hn. now right.
+Qed.
+
+Lemma list_noov_conflict : forall c, c_dryrun c = false -> no_external (c_filepps c) = true -> compatible c c -> links_clear c ->
+  c_allow c = false -> forall l s, (forall it, In it l -> In it (items c)) -> NoDup (map fst l) ->
+  (forall p, In p (map fst l) -> ready e s p = true) ->
+  (snd (WL c s l) = Err EExists <-> exists p, In p (map fst l) /\ s p <> None).
+Proof.
+  intros c Hd Hne Hc Lc Ha l. induction l as [|[p0 k] r IH]; intros s Hsub Hnd Hr; cbn [run_list map fst] in *.
+  - split; [discriminate | intros [p [[] _]]].
+  - inversion Hnd as [|? ? Hnot Hnd']; subst.
+    assert (Hl : links e p0 = None) by (apply Lc; unfold targets; apply (in_map fst _ (p0, k)); apply Hsub; now left).
+    destruct (s p0) as [f|] eqn:E.
+    + rewrite (W_conflict render e c p0 Hl Hd k s f E Ha). split; [|reflexivity]. intros _. exists p0. split; [now left | congruence].
+    + assert (X : exists s1, write_item render e c s (p0, k) = (s1, Ok) /\
+                 (forall p, In p (map fst r) -> s1 p = s p) /\ (forall p, In p (map fst r) -> ready e s1 p = true))
+        by (apply (list_noov_step c Hd Hne Hc Lc p0 k r s);
+            [apply Hsub; now left | intros it Hi; apply Hsub; now right | exact Hnot | exact E | exact Hr]).
+      destruct X as [s1 [H1 [Keep Rdy]]].
+      rewrite H1, bind_pair_ok. rewrite (IH s1); [|intros it Hi; apply Hsub; now right | exact Hnd' | exact Rdy]. split.
+      * intros [p [Hp Hs]]. exists p. split; [now right|]. now rewrite <- Keep.
+      * intros [p [[->|Hp] Hs]]; [congruence|]. exists p. split; [exact Hp|]. now rewrite Keep.
+Qed.
+
 (* ---- overwriting always works when the chains are ready and the entries are the runner's ---- *)
-Lemma list_total : forall c, c_dryrun c = false -> c_allow c = true -> compatible c c -> links_clear c -> forall l s,
+Lemma list_total : forall c, c_dryrun c = false -> no_external (c_filepps c) = true -> c_allow c = true -> compatible c c -> links_clear c -> forall l s,
   (forall it, In it l -> In it (items c)) ->
   chmodable e s -> (forall p, In p (map fst l) -> ready e s p = true) -> snd (WL c s l) = Ok.
 Proof.
-  intros c Hd Ha Hc Lc l. induction l as [|[p0 k] r IH]; intros s Hsub Hch Hr; cbn [run_list map fst] in *; [reflexivity|].
+  intros c Hd Hne Ha Hc Lc l. induction l as [|[p0 k] r IH]; intros s Hsub Hch Hr; cbn [run_list map fst] in *; [reflexivity|].
   assert (Hit : In (p0, k) (items c)) by (apply Hsub; now left).
   assert (Hl : links e p0 = None) by (apply Lc; unfold targets; now apply (in_map fst _ (p0, k))).
-  destruct (W_total render e Hind Hwf c p0 Hl Hd k s Ha (Hr p0 (or_introl eq_refl)) (Hch p0)) as [s1 [own [H1 _]]].
+  destruct (W_total render e Hind Hwf c p0 Hl Hd Hne k s Ha (Hr p0 (or_introl eq_refl)) (Hch p0)) as [s1 [own [H1 _]]].
   rewrite H1, bind_pair_ok.
   assert (Rl : rel e (tgt c) (anc e c) s s1).
   { replace s1 with (fst (write_item render e c s (p0, k))) by now rewrite H1. apply write_item_rel_fine; [exact Hit | now left]. }
@@ -973,32 +1042,32 @@ Notation links_safe := (links_safe e).
 Notation links_clear := (links_clear e).
 
 Lemma canonical_any_state : forall s c p, links_safe c ->
-  c_dryrun c = false -> c_filepps c <> [] -> snd (STEP s c) = Ok -> In p (targets c) ->
+  c_dryrun c = false -> no_external (c_filepps c) = true -> c_filepps c <> [] -> snd (STEP s c) = Ok -> In p (targets c) ->
   obs (fst (STEP s c) p) = canonical render e c p.
 Proof.
-  intros s c p Ls Hd Hpp Hok Hin. rewrite step_flat in *.
+  intros s c p Ls Hd Hne Hpp Hok Hin. rewrite step_flat in *.
   destruct (run_list (write_item render e c) s (items c)) as [s' r] eqn:H. cbn [fst snd] in *. subst r.
-  destruct (list_canonical render e Hind Hwf c Hd (items c) s s' p Ls H Hin) as [f' [E [C [_ M]]]].
+  destruct (list_canonical render e Hind Hwf c Hd Hne (items c) s s' p Ls H Hin) as [f' [E [C [_ M]]]].
   rewrite E. unfold obs, canonical. rewrite C, (M Hpp). f_equal. f_equal. now apply last_mode_irrel.
 Qed.
 
 Lemma content_any_state : forall s c p, links_safe c ->
-  c_dryrun c = false -> snd (STEP s c) = Ok -> In p (targets c) ->
+  c_dryrun c = false -> no_external (c_filepps c) = true -> snd (STEP s c) = Ok -> In p (targets c) ->
   exists f, fst (STEP s c) p = Some f /\ f_isdir f = false /\ f_cid f = render empty_fs 0 (c_class c) p.
 Proof.
-  intros s c p Ls Hd Hok Hin. rewrite step_flat in *.
+  intros s c p Ls Hd Hne Hok Hin. rewrite step_flat in *.
   destruct (run_list (write_item render e c) s (items c)) as [s' r] eqn:H. cbn [fst snd] in *. subst r.
-  destruct (list_canonical render e Hind Hwf c Hd (items c) s s' p Ls H Hin) as [f' [E [C [D _]]]]. eauto.
+  destruct (list_canonical render e Hind Hwf c Hd Hne (items c) s s' p Ls H Hin) as [f' [E [C [D _]]]]. eauto.
 Qed.
 
 Theorem regen_equals_fresh : forall h s0 c p, links_safe c ->
-  c_dryrun c = false -> c_filepps c <> [] ->
+  c_dryrun c = false -> no_external (c_filepps c) = true -> c_filepps c <> [] ->
   snd (STEP (HIST s0 h) c) = Ok -> snd (STEP empty_fs c) = Ok -> In p (targets c) ->
   obs (fst (STEP (HIST s0 h) c) p) = obs (fst (STEP empty_fs c) p).
 Proof.
-  intros h s0 c p Ls Hd Hpp H1 H2 Hin.
-  rewrite (canonical_any_state (HIST s0 h) c p Ls Hd Hpp H1 Hin).
-  now rewrite (canonical_any_state empty_fs c p Ls Hd Hpp H2 Hin).
+  intros h s0 c p Ls Hd Hne Hpp H1 H2 Hin.
+  rewrite (canonical_any_state (HIST s0 h) c p Ls Hd Hne Hpp H1 Hin).
+  now rewrite (canonical_any_state empty_fs c p Ls Hd Hne Hpp H2 Hin).
 Qed.
 
 (* ---- footprint ---- *)
@@ -1006,13 +1075,13 @@ Theorem written_in_footprint : forall s c q, links_safe c -> fst (STEP s c) q <>
   In q (targets c) \/ (In q (dir_targets e c) /\ s q = None /\ fst (STEP s c) q = Some (new_dir e)).
 Proof.
   intros s c q Ls H. destruct (in_dec N.eq_dec q (targets c)) as [X|X]; [now left|]. right.
-  destruct (step_rel_fine render e Hind Hwf c Ls s q) as [F _]. destruct (F X) as [Y|Y]; [contradiction | exact Y].
+  destruct (step_rel_fine render e Hwf c Ls s q) as [F _]. destruct (F X) as [Y|Y]; [contradiction | exact Y].
 Qed.
 
 Theorem foreign_event : forall s ev q, links_safe (ev_cfg ev) ->
   ~ In q (targets (ev_cfg ev)) -> (s q <> None \/ ~ In q (dir_targets e (ev_cfg ev))) -> apply_event render e s ev q = s q.
 Proof.
-  intros s ev q Ls X Z. destruct (event_rel_fine render e Hind Hwf ev s Ls q) as [F _].
+  intros s ev q Ls X Z. destruct (event_rel_fine render e Hwf ev s Ls q) as [F _].
   destruct (F X) as [Y|[A [N _]]]; [exact Y|]. destruct Z; [congruence | contradiction].
 Qed.
 
@@ -1025,7 +1094,7 @@ Theorem history_foreign : forall h s q, (forall ev, In ev h -> links_safe (ev_cf
   (s q <> None \/ forall ev, In ev h -> ~ In q (dir_targets e (ev_cfg ev))) ->
   HIST s h q = s q.
 Proof.
-  intros h s q Ls X Z. destruct (history_rel_fine render e Hind Hwf h s Ls q) as [F _].
+  intros h s q Ls X Z. destruct (history_rel_fine render e Hwf h s Ls q) as [F _].
   destruct F as [F|[[ev [Hev A]] [N _]]].
   - intros [ev [Hev W]]. exact (X ev Hev W).
   - exact F.
@@ -1036,7 +1105,7 @@ Theorem foreign_dirs_only : forall h s q, (forall ev, In ev h -> links_safe (ev_
   (forall ev, In ev h -> ~ In q (targets (ev_cfg ev))) ->
   HIST s h q = s q \/ (s q = None /\ HIST s h q = Some (new_dir e)).
 Proof.
-  intros h s q Ls X. destruct (history_rel_fine render e Hind Hwf h s Ls q) as [F _].
+  intros h s q Ls X. destruct (history_rel_fine render e Hwf h s Ls q) as [F _].
   destruct F as [F|[_ [N F]]]; [|now left | right; auto].
   intros [ev [Hev W]]. exact (X ev Hev W).
 Qed.
@@ -1065,7 +1134,7 @@ Theorem no_overwrite_conflict_fails : forall s c, links_safe c ->
   c_dryrun c = false -> c_allow c = false ->
   (exists p, In p (targets c) /\ s p <> None) -> snd (STEP s c) <> Ok.
 Proof.
-  intros s c Ls Hd Ha [p [Hin Hp]]. rewrite step_flat. apply (list_blocked_fails render e Hind Hwf c Hd Ls); auto.
+  intros s c Ls Hd Ha [p [Hin Hp]]. rewrite step_flat. apply (list_blocked_fails render e Hwf c Hd Ls); auto.
   destruct (s p) as [f|] eqn:E; [|congruence]. exists p, f. auto.
 Qed.
 
@@ -1073,7 +1142,7 @@ Qed.
 Theorem directory_at_target_fails : forall s c, links_safe c ->
   c_dryrun c = false -> (exists p, In p (targets c) /\ fs_is_dir s p = true) -> snd (STEP s c) <> Ok.
 Proof.
-  intros s c Ls Hd [p [Hin Hp]]. rewrite step_flat. apply (list_blocked_fails render e Hind Hwf c Hd Ls); auto.
+  intros s c Ls Hd [p [Hin Hp]]. rewrite step_flat. apply (list_blocked_fails render e Hwf c Hd Ls); auto.
   unfold fs_is_dir in Hp. destruct (s p) as [f|] eqn:E; [|discriminate]. exists p, f. auto.
 Qed.
 
@@ -1081,9 +1150,28 @@ Theorem directory_at_target_kept : forall s ev q f, links_safe (ev_cfg ev) -> s 
   exists f', apply_event render e s ev q = Some f' /\ f_isdir f' = true /\ f_owned f' = f_owned f /\
              (~ In q (targets (ev_cfg ev)) -> f' = f).
 Proof.
-  intros s ev q f Ls E D. pose proof (event_rel_fine render e Hind Hwf ev s Ls) as Rl.
+  intros s ev q f Ls E D. pose proof (event_rel_fine render e Hwf ev s Ls) as Rl.
   destruct (rel_keeps_kind render e _ _ _ _ q f Rl E) as [f' [E' [D' O']]]. exists f'. repeat split; auto; [congruence|].
   intros X. destruct (Rl q) as [F _]. destruct (F X) as [Y|[_ [Y _]]]; congruence.
+Qed.
+
+Theorem no_overwrite_ok_iff : forall s c,
+  c_dryrun c = false -> c_allow c = false -> no_external (c_filepps c) = true -> compatible e c c -> links_clear c ->
+  NoDup (targets c) -> (forall p, In p (targets c) -> ready e s p = true) ->
+  (snd (STEP s c) = Ok <-> forall p, In p (targets c) -> s p = None).
+Proof.
+  intros s c Hd Ha Hne Hc Lc Hnd Hr. rewrite step_flat. split.
+  - intros H p Hin. destruct (s p) as [f|] eqn:E; [|reflexivity]. exfalso.
+    apply (list_blocked_fails render e Hwf c Hd (links_clear_safe e c Lc) (items c) s); auto. exists p, f. auto.
+  - intros H. apply (list_noov_clean render e Hind Hwf c Hd Hne Hc Lc); auto.
+Qed.
+
+Theorem no_overwrite_error_iff : forall s c,
+  c_dryrun c = false -> c_allow c = false -> no_external (c_filepps c) = true -> compatible e c c -> links_clear c ->
+  NoDup (targets c) -> (forall p, In p (targets c) -> ready e s p = true) ->
+  (snd (STEP s c) = Err EExists <-> exists p, In p (targets c) /\ s p <> None).
+Proof.
+  intros s c Hd Ha Hne Hc Lc Hnd Hr. rewrite step_flat. apply (list_noov_conflict render e Hind Hwf c Hd Hne Hc Lc Ha); auto.
 Qed.
 
 Theorem dry_run_inert : forall s c, c_dryrun c = true -> STEP s c = (s, Ok).
@@ -1094,12 +1182,12 @@ Theorem regen_total_history : forall h s0 c,
   chmodable e s0 -> (forall p, In p (targets c) -> ready e s0 p = true) ->
   compatible e c c -> (forall ev, In ev h -> compatible e c (ev_cfg ev)) ->
   links_clear c -> (forall ev, In ev h -> links_safe (ev_cfg ev)) ->
-  c_allow c = true -> c_dryrun c = false ->
+  c_allow c = true -> c_dryrun c = false -> no_external (c_filepps c) = true ->
   snd (STEP (HIST s0 h) c) = Ok.
 Proof.
-  intros h s0 c Hch Hr Hcc Hch' Lc Lh Ha Hd. rewrite step_flat.
-  pose proof (history_rel_fine render e Hind Hwf h s0 Lh) as Rl.
-  apply (list_total render e Hind Hwf c Hd Ha Hcc Lc); auto.
+  intros h s0 c Hch Hr Hcc Hch' Lc Lh Ha Hd Hne. rewrite step_flat.
+  pose proof (history_rel_fine render e Hwf h s0 Lh) as Rl.
+  apply (list_total render e Hind Hwf c Hd Hne Ha Hcc Lc); auto.
   - eapply rel_chmodable; eauto.
   - intros p Hp. apply (ready_preserved e _ _ s0 _ p Rl).
     + intros q Hq [ev [Hev Ht]]. apply (proj1 (Hch' ev Hev) q); [|exact Ht].
@@ -1109,7 +1197,7 @@ Proof.
 Qed.
 
 Theorem chmodable_history : forall h s0, (forall ev, In ev h -> links_safe (ev_cfg ev)) -> chmodable e s0 -> chmodable e (HIST s0 h).
-Proof. intros h s0 Ls H. eapply rel_chmodable; [apply (history_rel_fine render e Hind Hwf h s0 Ls) | exact H]. Qed.
+Proof. intros h s0 Ls H. eapply rel_chmodable; [apply (history_rel_fine render e Hwf h s0 Ls) | exact H]. Qed.
 
 (* with a gate that refuses links: a link at a target makes the run fail *)
 Theorem symlink_at_target_fails : forall s c, gate_refuses_links ->
